@@ -77,6 +77,13 @@ def discharge_one(ob, budget, smoke_budget, ledger_entry, thorough):
     order = ['z3', 'cvc5']
     if ledger_entry and ledger_entry.get('solver') == 'cvc5':
         order = ['cvc5', 'z3']
+    if ledger_entry and '/' in str(ledger_entry.get('solver', '')) and ob.get('focus_path'):
+        sname, variant = ledger_entry['solver'].split('/')[:2]
+        if variant in ('focus', 'nohint'):
+            v, dt, extra = (run_z3 if sname == 'z3' else run_cvc5)(ob['focus_path'].replace('.focus.', f'.{variant}.'), b)
+            res['tries'].append((f'{sname}/{variant}', v, round(dt, 2)))
+            if v == 'unsat':
+                res.update(verdict='unsat', solver=f'{sname}/{variant}', time=dt, model=''); return res
     total = 0.0
     verdict = 'unknown'
     model = ''
@@ -90,6 +97,14 @@ def discharge_one(ob, budget, smoke_budget, ledger_entry, thorough):
             verdict = 'sat'; res['solver'] = sname
             v2, dt2, model = (run_z3 if sname == 'z3' else run_cvc5)(ob['path'], b, model=True)
             break
+    if verdict == 'unknown' and ob.get('focus_path'):
+        # sound retry with a SUBSET of the premises (quantifier-free path facts, definitions, hint assertions)
+        for sname, variant in (('z3', 'focus'), ('z3', 'nohint'), ('cvc5', 'focus'), ('cvc5', 'nohint')):
+            v, dt, extra = (run_z3 if sname == 'z3' else run_cvc5)(ob['focus_path'].replace('.focus.', f'.{variant}.'), b)
+            total += dt
+            res['tries'].append((f'{sname}/{variant}', v, round(dt, 2)))
+            if v == 'unsat':
+                verdict = 'unsat'; res['solver'] = f'{sname}/{variant}'; break
     if verdict == 'unknown' and (thorough or (ledger_entry and ledger_entry.get('verdict') == 'unsat')):
         # second round: other seeds / longer budget before an obligation is declared undecided
         for seed in (7, 31):
